@@ -307,7 +307,38 @@ def c15_replay(ctx, rp):
     return vcore_check("c15")["replay"](ctx, rp)
 
 
+def vserde_build(ctx):
+    ctx["cargo_build"]("vserde")
+
+
+def vserde_steps(ctx):
+    out = os.path.join(ctx["work"], f"C20.{ctx['tier']}.json")
+    if os.path.exists(out):
+        os.remove(out)
+    cmd = [_bin(ctx, "vserde"), "--tier", ctx["tier"], "--seed", str(ctx["seed"]), "--out", out]
+    rc, so, se, secs = ctx["run"](cmd, timeout=_timeout(ctx))
+    ctx["log"]("\n".join(se.splitlines()[-5:]))
+    if rc is None:
+        raise ctx["Inconclusive"]("watchdog: vserde exceeded the wall-clock limit")
+    if rc != 0 or not os.path.exists(out):
+        raise ctx["Inconclusive"](f"vserde ended abnormally (rc={rc}): {se[-400:]}")
+    r = json.load(open(out))
+    for v in r["violations"]:
+        v["binary"] = "vserde"
+        v["replay"] = v["replay"][1:]
+    r.setdefault("layers", [])
+    return [r]
+
+
+def vserde_replay(ctx, rp):
+    cmd = [_bin(ctx, "vserde")] + rp["argv"] + ["--tier", ctx["tier"]]
+    rc, so, se, secs = ctx["run"](cmd, timeout=QUICK_TIMEOUT)
+    bad = rc != 0 or '"violations_total":0' not in so.replace(" ", "")
+    return (1 if bad else 0), so, se, secs
+
+
 CHECKS = {
+    "C20": {"build": vserde_build, "steps": vserde_steps, "replay": vserde_replay, "level": "exploration"},
     "C02": {"build": vcore_build, "steps": c02_steps, "replay": c02_replay, "level": "exploration"},
     "C01": vcore_check("c01"),
     "C03": vcore_check("c03"),
